@@ -38,12 +38,13 @@ static const char *const opnames[OP_N] = {
 static inline unsigned char stream_byte(int s, uint64_t i) { return (unsigned char)(mix64((uint64_t)s * 1000003ULL + (i >> 3)) >> ((i & 7) * 8)); }
 
 struct FilterCtx {
-	int kind;	// 0 identity, 1 xor 0x5a, 2 one byte per call, 3 double/halve, 4 need-at-least-k
+	int kind;	// 0 identity, 1 xor 0x5a, 2 one byte per call, 3 double/halve, 4 need-at-least-k, 5 at most k bytes per call
 	bool is_input;
 	int k;
 	int freed = 0;
 	int endidx;
 	int calls = 0;
+	struct bufferevent *under = nullptr;	// the bufferevent this filter writes into / reads from
 };
 
 struct End {
@@ -92,6 +93,13 @@ struct End {
 	size_t max_single[2] = {0, 0};
 	std::map<int64_t, int64_t> ledger[2];	// tick -> bytes moved by read / write system calls
 	int epoch = 0;
+	// C20 "must fire": latest instant at which the library may have (re)started the direction's timer
+	int64_t r_start = 0, w_start = 0;
+	int r_due_seen = 0, w_due_seen = 0;
+	int64_t susp_since = -1;	// input at or above the high read watermark since (us), -1 when below
+	int hold_by_disable = 0;	// at the high read watermark the application stops reading instead of draining
+	int retry_in_cb = 0;		// re-issue bufferevent_socket_connect from inside the error callback
+	int connect_attempts = 0;
 };
 struct Group {
 	struct bufferevent_rate_limit_group *g = nullptr;
@@ -144,6 +152,16 @@ static enum bufferevent_filter_result filter_fn(struct evbuffer *src, struct evb
 		// C18: the limit handed to an output filter is the room under the underlying high write watermark
 		(void)dst_limit;
 	}
+	if (R && !c->is_input && mode == BEV_NORMAL && c->under && !stop()) {
+		size_t lo = 0, hi = 0;
+		bufferevent_getwatermark(c->under, EV_WRITE, &lo, &hi);
+		if (hi) {
+			size_t have = evbuffer_get_length(dst), room = hi > have ? hi - have : 0;
+			if (dst_limit < 0 || (size_t)dst_limit > room)
+				V("C18", "C18.filter-limit-above-underlying-high-watermark", "end %d: output filter called in normal mode with dst_limit %zd, the underlying output holds %zu and its high write watermark is %zu", c->endidx, (ssize_t)dst_limit, have, hi);
+			probe("filter-under-write-watermark");
+		}
+	}
 	if (avail == 0) return BEV_NEED_MORE;
 	tr("filter-enter end=%d in=%d avail=%zu lim=%zd dstlen=%zu", c->endidx, (int)c->is_input, avail, (ssize_t)dst_limit, evbuffer_get_length(dst));
 	size_t lim = dst_limit < 0 ? (size_t)-1 : (size_t)dst_limit;
@@ -178,6 +196,7 @@ static enum bufferevent_filter_result filter_fn(struct evbuffer *src, struct evb
 		if (avail < (size_t)c->k && mode == BEV_NORMAL) return BEV_NEED_MORE;
 		xf(std::min(avail, lim), 0);
 		break;
+	case 5: xf(std::min(std::min(avail, lim), (size_t)c->k), 0); break;
 	}
 	tr("filter end=%d kind=%d in=%d avail=%zu lim=%zd mode=%d moved=%zu", c->endidx, c->kind, (int)c->is_input, avail, (ssize_t)dst_limit, (int)mode, moved);
 	if (!moved) return BEV_NEED_MORE;
@@ -194,9 +213,16 @@ static void end_free(int i, const char *why);
 
 // evbuffer callbacks on the application-facing input / output buffers: transfers are what restarts a timeout,
 // and growth of the input is what a high read watermark bounds
+static void note_susp(End &x, size_t len) {
+	bool s = x.rhigh && len >= x.rhigh;
+	if (s && x.susp_since < 0) x.susp_since = now_us();
+	if (!s) x.susp_since = -1;
+}
 static void inbuf_cb(struct evbuffer *b, const struct evbuffer_cb_info *info, void *arg) {
 	End &x = R->e[(int)(intptr_t)arg];
 	if (x.freed || stop()) return;
+	x.r_start = now_us(); x.r_due_seen = 0;
+	note_susp(x, evbuffer_get_length(b));
 	if (info->n_added) {
 		tr("inbuf end=%d orig=%zu added=%zu deleted=%zu susp=%d", x.id, info->orig_size, info->n_added, info->n_deleted, shim_bev_read_suspended(x.bev));
 		x.last_r_activity = G.now_ns / 1000;
@@ -211,6 +237,9 @@ static void outbuf_cb(struct evbuffer *b, const struct evbuffer_cb_info *info, v
 	(void)b;
 	if (x.freed || stop()) return;
 	if (info->n_deleted) x.last_w_activity = G.now_ns / 1000;
+	// a transfer restarts the write timer; so may new output when none was pending (sockets) or whenever the
+	// transport re-evaluates (pairs, filters)
+	if (info->n_deleted || info->orig_size == 0 || !x.is_sock) { x.w_start = now_us(); x.w_due_seen = 0; }
 	size_t l = evbuffer_get_length(b);
 	if (l < x.out_min_since_cb) x.out_min_since_cb = l;
 }
@@ -268,7 +297,13 @@ static void read_cb(struct bufferevent *bev, void *arg) {
 	}
 	// libevent re-schedules the read callback for as long as the input stays at or above the high watermark
 	// with reading enabled (bufferevent_inbuf_wm_check): an application must drain below it or disable reading
-	if (x.rhigh && len - want >= x.rhigh) want = len - x.rhigh + 1;
+	if (x.rhigh && len - want >= x.rhigh) {
+		if (x.hold_by_disable) {
+			bufferevent_disable(x.bev, EV_READ);
+			x.enabled &= ~EV_READ;
+			probe("held-at-high-watermark-by-disabling-read");
+		} else want = len - x.rhigh + 1;
+	}
 	R->in_cb = true;
 	drain_and_verify(x, want);
 	R->in_cb = false;
@@ -295,10 +330,13 @@ static void event_cb(struct bufferevent *bev, short what, void *arg) {
 		if (x.n_connected > 1) V("C19", "C19.connected-twice", "end %d: BEV_EVENT_CONNECTED reported %d times", x.id, x.n_connected);
 		if (x.n_readcb || x.n_writecb) V("C19", "C19.connected-after-io", "end %d: CONNECTED after %d read / %d write callbacks", x.id, x.n_readcb, x.n_writecb);
 		probe("connected");
+		x.r_start = x.w_start = now_us();
 	}
-	if (what & BEV_EVENT_TIMEOUT) {
+	// deferred event callbacks merge what became pending: a read and a write timeout can arrive as one event
+	for (int dir = 0; dir < 2 && (what & BEV_EVENT_TIMEOUT); dir++) {
+		bool rd = dir == 0;
+		if (!(what & (rd ? BEV_EVENT_READING : BEV_EVENT_WRITING))) continue;
 		R->timeouts_seen++;
-		bool rd = what & BEV_EVENT_READING;
 		int64_t T = rd ? x.rt_us : x.wt_us;
 		int64_t last = rd ? x.last_r_activity : x.last_w_activity;
 		bool connect_timeout = !rd && x.connecting && x.n_connected == 0;	// while connecting, the write timeout is the connect timeout
@@ -306,6 +344,8 @@ static void event_cb(struct bufferevent *bev, short what, void *arg) {
 		else {
 			if (T <= 0) V("C20", "C20.timeout-without-setting", "end %d: %s timeout event but no %s timeout is set", x.id, rd ? "read" : "write", rd ? "read" : "write");
 			else if (now_us() - last < T) V("C20", "C20.timeout-early", "end %d: %s timeout after %lld us of inactivity, configured %lld us", x.id, rd ? "read" : "write", (long long)(now_us() - last), (long long)T);
+			if (rd && x.susp_since >= 0 && now_us() - x.susp_since >= 1000 && now_us() - x.susp_since >= T / 2)
+				V("C20", "C20.read-timeout-while-suspended", "end %d: read timeout although reading has been suspended by the high read watermark %zu for %lld us (timeout %lld us)", x.id, x.rhigh, (long long)(now_us() - x.susp_since), (long long)T);
 			if (!(x.enabled & (rd ? EV_READ : EV_WRITE))) V("C20", "C20.timeout-while-disabled", "end %d: %s timeout while that direction is disabled", x.id, rd ? "read" : "write");
 			if (!rd && evbuffer_get_length(bufferevent_get_output(x.bev)) == 0) {
 				if (x.is_sock) { if (!suppressed("socket-write-timeout-with-empty-output")) V("C20", "C20.write-timeout-without-pending-output:socket", "end %d: write timeout fired on a socket bufferevent with an empty output buffer (writing was enabled while the socket was not writable)", x.id); else probe("known:socket-write-timeout-with-empty-output"); }
@@ -330,14 +370,39 @@ static void event_cb(struct bufferevent *bev, short what, void *arg) {
 			x.eof_seen = true;
 			x.rcvd_at_eof = x.rcvd + inbuf;
 			if (!p.tx_closed && !p.freed) V("C17", "C17.eof-without-shutdown", "end %d: EOF although end %d never shut down", x.id, p.id);
-			else if (!p.tx_reset && !x.tx_reset && x.rcvd + inbuf != p.sent_at_close && (bufferevent_get_enabled(x.bev) & EV_READ))	// an end that disabled reading chose not to receive
+			else if (!p.tx_reset && !x.tx_reset && x.rcvd + inbuf != p.sent_at_close && ((bufferevent_get_enabled(x.bev) & EV_READ) || x.is_pair))	// a filter that disabled reading chose not to pull; a pair member is handed everything by the flush
 				V("C17", "C17.eof-before-all-data", "end %d: EOF after %llu of the %llu bytes end %d wrote before its shutdown (%zu of them still unread in the input buffer)", x.id,
 				    (unsigned long long)(x.rcvd + inbuf), (unsigned long long)p.sent_at_close, p.id, inbuf);
 			probe("eof");
 		}
 		if (!eof) probe("error-event");
 		x.enabled = bufferevent_get_enabled(x.bev);	// sockets stop reading on EOF/error, pairs and filters leave it to the application
+		bool was_connecting = x.connecting && x.n_connected == 0;
 		x.connecting = false;
+		if (was_connecting && !eof && x.retry_in_cb && x.connect_attempts < 3 && !stop()) {
+			// fail-over from inside the error callback: a new connection starts, with a lifecycle of its own
+			sockaddr_in sa = vk::addr4(0x7f000001, (uint16_t)(8000 + x.id / 2));
+			x.connect_attempts++;
+			x.n_err_r = x.n_err_w = x.n_eof_r = x.n_eof_w = 0;
+			x.n_readcb = x.n_writecb = 0;
+			x.connecting = true;
+			int r = bufferevent_socket_connect(x.bev, (sockaddr *)&sa, sizeof sa);
+			x.fd = bufferevent_getfd(x.bev);
+			tr("api reconnect-in-callback end=%d attempt=%d -> %d fd=%d", x.id, x.connect_attempts, r, x.fd);
+			if (r != 0) x.connecting = false;
+			bufferevent_enable(x.bev, EV_READ | EV_WRITE);
+			x.enabled = bufferevent_get_enabled(x.bev);
+			x.r_start = x.w_start = now_us();
+			probe("reconnect-inside-error-callback");
+		} else if (was_connecting && !stop()) {
+			// the connection never came up: the application gives the bufferevent up (it is freed at the end)
+			bufferevent_disable(x.bev, EV_READ | EV_WRITE);
+			x.enabled = 0;
+			x.n_err_r = x.n_err_w = 1;
+			x.tx_reset = true;
+			if (x.peer >= 0) R->e[x.peer].tx_reset = true;
+			probe("connect-failed");
+		}
 	}
 	if (x.free_in_cb == 2 && !stop()) { probe("free-inside-event-callback"); end_free(x.id, "inside its event callback"); }
 }
@@ -380,14 +445,15 @@ static vk::EndpointCbs ep_cbs(int i) {
 }
 
 // ---- construction
-static struct bufferevent *wrap_filters(int i, struct bufferevent *under, int nfilt, int kindseed, int opts) {
+static struct bufferevent *wrap_filters(int i, struct bufferevent *under, int nfilt, int kindseed, int opts, bool preserve = false) {
 	End &x = R->e[i];
 	struct bufferevent *cur = under;
 	x.fctx.reserve(2 * MAXFILT + 2);
 	for (int f = 0; f < nfilt; f++) {
-		int kind = (kindseed >> (3 * f)) % 5;
-		FilterCtx *ci = new FilterCtx{kind, true, 3 + (kindseed % 7), 0, i, 0};
-		FilterCtx *co = new FilterCtx{kind, false, 3 + (kindseed % 7), 0, i, 0};
+		int kind = (kindseed >> (3 * f)) % 6;
+		if (preserve) { if (kind == 1) kind = 0; if (kind == 3) kind = 5; }
+		FilterCtx *ci = new FilterCtx{kind, true, 3 + (kindseed % 7), 0, i, 0, cur};
+		FilterCtx *co = new FilterCtx{kind, false, 3 + (kindseed % 7), 0, i, 0, cur};
 		// one context per direction would need two free callbacks; the API has one ctx: use a small holder
 		struct Both { FilterCtx *in, *out; int freed; };
 		(void)ci; (void)co;
@@ -563,6 +629,39 @@ static int pick_end(int64_t v, bool need_bev, bool need_ep = false) {
 	return idx[((v % n) + n) % n];
 }
 
+// C20, the "if" half: a direction that has been enabled, not suspended, (for writes) with output pending and without a
+// transfer for the configured time must get its timeout.  r_start / w_start are the latest instants at which the library
+// may have restarted the timer; the verdict waits for two complete loop calls that began after the deadline (a deferred
+// event callback runs one iteration later)
+static void check_timeouts_due(int64_t t_loop_start) {
+	for (int i = 0; i < R->nend && !stop(); i++) {
+		End &x = R->e[i];
+		if (!x.exists || x.freed || !x.bev || x.cbs_cleared) continue;
+		if (x.connecting && x.n_connected == 0) continue;
+		if (x.rl_cfg || x.in_group >= 0) continue;
+		size_t inl = evbuffer_get_length(bufferevent_get_input(x.bev)), outl = evbuffer_get_length(bufferevent_get_output(x.bev));
+		bool r_armed = x.rt_us > 0 && (x.enabled & EV_READ) && !x.eof_seen && !x.n_err_r && !(x.rhigh && inl >= x.rhigh);
+		if (r_armed && t_loop_start >= x.r_start + x.rt_us + 1000) {
+			if (++x.r_due_seen >= 2) V("C20", "C20.timeout-missed", "end %d: reading enabled, not suspended, nothing received for %lld us with a read timeout of %lld us, and no BEV_EVENT_TIMEOUT", x.id, (long long)(now_us() - x.r_start), (long long)x.rt_us);
+		} else x.r_due_seen = 0;
+		bool w_armed = x.wt_us > 0 && (x.enabled & EV_WRITE) && !x.n_err_w && !x.n_eof_w && outl > 0;
+		if (w_armed && t_loop_start >= x.w_start + x.wt_us + 1000) {
+			if (++x.w_due_seen >= 2) V("C20", "C20.timeout-missed", "end %d: writing enabled with %zu bytes pending, nothing written for %lld us with a write timeout of %lld us, and no BEV_EVENT_TIMEOUT", x.id, outl, (long long)(now_us() - x.w_start), (long long)x.wt_us);
+		} else x.w_due_seen = 0;
+	}
+}
+
+// C18 "reading resumes as soon as the application drains below the high watermark (or raises it)": the library keeps this
+// as a flag, which the next transfer consults; checked where the application just changed mark or level
+static void check_wm_state(End &x, const char *after) {
+	if (stop() || !x.bev || x.freed) return;
+	size_t len = evbuffer_get_length(bufferevent_get_input(x.bev));
+	bool want = x.rhigh && len >= x.rhigh;
+	bool have = shim_bev_read_suspended(x.bev) & 0x01;	// BEV_SUSPEND_WM
+	if (want != have)
+		V("C18", "C18.read-suspension-state", "end %d after %s: %zu bytes buffered, high read watermark %zu, reading is %s by the watermark", x.id, after, len, x.rhigh, have ? "still suspended" : "not suspended");
+}
+
 static void exec_op(const Op &op) {
 	switch (op.code) {
 	case OP_WRITE: {
@@ -585,11 +684,13 @@ static void exec_op(const Op &op) {
 		End &x = R->e[i];
 		x.policy = (int)(op.a[1] % 4);
 		x.free_in_cb = (op.a[2] % 16 == 7) ? 1 : (op.a[2] % 16 == 9 ? 2 : 0);
+		if (op.a[2] % 16 == 11) x.retry_in_cb = 1;
+		x.hold_by_disable = (op.a[2] & 32) ? 1 : 0;
 		tr("api read_policy end=%d policy=%d free_in_cb=%d", i, x.policy, x.free_in_cb);
 		// an application that starts reading again drains what is buffered (as a read callback would)
 		if (x.policy != 2 && !x.eof_seen) {
 			size_t len = evbuffer_get_length(bufferevent_get_input(x.bev));
-			if (len) { drain_and_verify(x, x.policy == 0 ? len : 1); x.low_changed = true; }	// a read callback already queued will find less than it was queued for
+			if (len) { drain_and_verify(x, x.policy == 0 ? len : 1); x.low_changed = true; check_wm_state(x, "draining the input"); }	// a read callback already queued will find less than it was queued for
 		}
 		break;
 	}
@@ -606,6 +707,8 @@ static void exec_op(const Op &op) {
 		tr("api %s end=%d ev=0x%x -> %d", opnames[op.code], i, ev, r);
 		if (r == 0) {
 			if (op.code == OP_ENABLE) {
+				if (ev & EV_READ) { x.r_start = now_us(); x.r_due_seen = 0; }
+				if (ev & EV_WRITE) { x.w_start = now_us(); x.w_due_seen = 0; }
 				if ((ev & EV_READ) && !(x.enabled & EV_READ)) x.last_r_activity = now_us();
 				if ((ev & EV_WRITE) && !(x.enabled & EV_WRITE)) x.last_w_activity = now_us();
 				x.enabled |= ev;
@@ -620,9 +723,33 @@ static void exec_op(const Op &op) {
 		End &x = R->e[i];
 		short ev = (op.a[1] & 1) ? EV_READ : EV_WRITE;
 		size_t low = (size_t)op.a[2], high = (size_t)op.a[3];
+		// only write marks below a filter (the documented back-pressure pattern); a read high mark on an underlying
+		// bufferevent whose filter cannot take more makes bufferevent_inbuf_wm_check re-queue the read callback for ever
+		int level = (x.under.empty() || ev == EV_READ) ? 0 : (int)(op.a[4] % (int64_t)(1 + x.under.size()));
+		if (level > 0) {	// a watermark on an underlying bufferevent: back-pressure inside the stack, invisible at the top
+			struct bufferevent *u = x.under[level - 1];
+			APIV(bufferevent_setwatermark(u, ev, low, high));
+			tr("api setwatermark end=%d level=%d %s low=%zu high=%zu", i, level, ev == EV_READ ? "read" : "write", low, high);
+			probe("watermark-on-underlying");
+			break;
+		}
+		if (op.a[5]) {	// relative to what is buffered right now: the boundary cases of every comparison
+			size_t len = evbuffer_get_length(ev == EV_READ ? bufferevent_get_input(x.bev) : bufferevent_get_output(x.bev));
+			switch (op.a[5] % 5) {
+			case 1: high = len; break;
+			case 2: high = len + 1; break;
+			case 3: high = len + 1 + (size_t)op.a[3] % 5000; break;
+			case 4: high = len > 1 ? len - 1 : 1; break;
+			default: break;
+			}
+			if (low > high && (op.a[5] & 8)) low = high;
+			probe("watermark-relative");
+		}
+		x.r_start = x.w_start = now_us(); x.r_due_seen = x.w_due_seen = 0;
 		if (ev == EV_READ) { x.rlow = low; x.rhigh = high; x.low_changed = true; } else { x.wlow = low; x.whigh = high; }	// the call itself may resume transfers
 		APIV(bufferevent_setwatermark(x.bev, ev, low, high));
 		tr("api setwatermark end=%d %s low=%zu high=%zu", i, ev == EV_READ ? "read" : "write", low, high);
+		if (ev == EV_READ) { note_susp(x, evbuffer_get_length(bufferevent_get_input(x.bev))); check_wm_state(x, "bufferevent_setwatermark"); }
 		break;
 	}
 	case OP_TIMEOUTS: {
@@ -634,6 +761,7 @@ static void exec_op(const Op &op) {
 		x.rt_us = op.a[1];
 		x.wt_us = op.a[2];
 		x.last_r_activity = x.last_w_activity = now_us();
+		x.r_start = x.w_start = now_us(); x.r_due_seen = x.w_due_seen = 0;
 		tr("api set_timeouts end=%d r=%lld w=%lld -> %d", i, (long long)op.a[1], (long long)op.a[2], r);
 		break;
 	}
@@ -642,6 +770,7 @@ static void exec_op(const Op &op) {
 		if (i < 0) break;
 		End &x = R->e[i];
 		short io = (short)((op.a[1] & 1 ? EV_READ : 0) | (op.a[1] & 2 ? EV_WRITE : 0));
+		if (x.eof_seen) io &= ~EV_READ;	// pulling more input up after EOF was reported is the application's own doing
 		if (!io) io = EV_WRITE;
 		enum bufferevent_flush_mode mode = (op.a[2] % 3 == 0) ? BEV_NORMAL : (op.a[2] % 3 == 1 ? BEV_FLUSH : BEV_FINISHED);
 		if (mode == BEV_FINISHED && (x.is_sock || x.tx_closed || !(x.enabled & EV_WRITE))) mode = BEV_FLUSH;	// finishing a stream whose writing is disabled is the application's own truncation
@@ -652,6 +781,8 @@ static void exec_op(const Op &op) {
 		if (mode == BEV_FLUSH && (x.is_pair || !x.under.empty()) && R->e[x.peer].rhigh && suppressed("pair-flush-ignores-read-watermark")) mode = BEV_NORMAL;
 		if (mode == BEV_FINISHED) { x.tx_closed = true; x.sent_at_close = x.sent; probe("flush-finished"); }
 		if (mode != BEV_NORMAL) R->in_flush++;
+		x.r_start = x.w_start = now_us(); x.r_due_seen = x.w_due_seen = 0;
+		if (x.peer >= 0) { End &q = R->e[x.peer]; q.r_start = q.w_start = now_us(); q.r_due_seen = q.w_due_seen = 0; }
 		int r = API(bufferevent_flush(x.bev, io, mode));
 		if (mode != BEV_NORMAL) R->in_flush--;
 		tr("api flush end=%d io=0x%x mode=%d -> %d", i, io, (int)mode, r);
@@ -884,9 +1015,11 @@ static void exec_op(const Op &op) {
 		int64_t until_us = op.a[1];
 		R->in_loop = true;
 		int64_t t_end = G.now_ns + until_us * 1000;
-		for (int k = 0; k < iters && !stop(); k++) {
+		for (int k = 0; k < iters && !stop() && !G.capped; k++) {
+			int64_t t_start = now_us();
 			int r = API(event_base_loop(R->base, EVLOOP_ONCE | ((op.a[2] & 1) ? EVLOOP_NONBLOCK : 0)));
 			if (r < 0) { violation("C17.loop-failed", "event_base_loop returned %d", r); break; }
+			if (!R->stalled && !G.capped) check_timeouts_due(t_start);
 			if (r == 1 && !vk::events_pending()) break;
 			if (until_us > 0 && G.now_ns >= t_end) break;
 		}
@@ -902,7 +1035,7 @@ static void build_topology(const Plan &p) {
 	int topo = (int)p.c("topo");
 	int opts = 0;
 	if (p.c("defer")) opts |= BEV_OPT_DEFER_CALLBACKS;
-	if (p.c("unlock") && (opts & BEV_OPT_DEFER_CALLBACKS)) opts |= BEV_OPT_UNLOCK_CALLBACKS;
+	if (p.c("unlock") && ((opts & BEV_OPT_DEFER_CALLBACKS) || (p.c("topo") % 5) >= 2)) opts |= BEV_OPT_UNLOCK_CALLBACKS | BEV_OPT_DEFER_CALLBACKS;
 	if (p.c("threadsafe") && mon::locks_enabled) opts |= BEV_OPT_THREADSAFE;
 	int nconn = (int)std::max<int64_t>(1, std::min<int64_t>(MAXEND / 2, p.c("nconn", 1)));
 	for (int c = 0; c < nconn; c++) {
@@ -927,10 +1060,24 @@ static void build_topology(const Plan &p) {
 			A.bev = bufferevent_socket_new(R->base, -1, opts | BEV_OPT_CLOSE_ON_FREE);
 			A.is_sock = true;
 			A.connecting = true;
+			A.connect_attempts = 1;
+			if (p.c("connect_fail") && c == 0) {
+				int mode = (int)p.c("connect_fail");
+				A.retry_in_cb = p.c("connect_retry") ? 1 : 0;
+				vk::connect_policy = [mode](const sockaddr *, socklen_t) {
+					vk::ConnectDecision d;
+					if (R->e[0].connect_attempts > 1) return d;	// the retry goes through
+					if (mode == 1) d.err = ECONNREFUSED;
+					else if (mode == 2) { d.err = ECONNREFUSED; d.immediate = true; }
+					else d.never = true;
+					fault("net.connect-refused-or-unanswered");
+					return d;
+				};
+			}
 			end_setup(a);
 			int r = bufferevent_socket_connect(A.bev, (sockaddr *)&sa, sizeof sa);
 			A.fd = bufferevent_getfd(A.bev);
-			if (r != 0) tr("connect returned %d", r);
+			if (r != 0) { tr("connect returned %d", r); A.connecting = false; }
 			bufferevent_enable(A.bev, EV_READ | EV_WRITE);
 			A.enabled = EV_READ | EV_WRITE;
 		} else if (t == 1) {
@@ -954,9 +1101,15 @@ static void build_topology(const Plan &p) {
 				int nf = 1 + (int)(p.c("nfilt") % MAXFILT);
 				int ks = (int)p.c("filtkinds");
 				// the same filter kinds on both sides so that input filters undo the peer's output filters
-				A.bev = wrap_filters(a, pr[0], nf, ks, opts & ~BEV_OPT_THREADSAFE);
-				B.bev = t == 3 ? wrap_filters(b, pr[1], nf, ks, opts & ~BEV_OPT_THREADSAFE) : wrap_filters(b, pr[1], nf, ks, opts & ~BEV_OPT_THREADSAFE);
-				A.is_pair = B.is_pair = false;
+				if (t == 3) {
+					A.bev = wrap_filters(a, pr[0], nf, ks, opts & ~BEV_OPT_THREADSAFE);
+					B.bev = wrap_filters(b, pr[1], nf, ks, opts & ~BEV_OPT_THREADSAFE);
+					A.is_pair = B.is_pair = false;
+				} else {	// a filter stack talking to a bare pair member: only filters that leave the bytes as they are
+					A.bev = wrap_filters(a, pr[0], nf, ks, opts & ~BEV_OPT_THREADSAFE, true);
+					B.bev = pr[1];
+					A.is_pair = false;
+				}
 			} else { A.bev = pr[0]; B.bev = pr[1]; }
 			end_setup(a);
 			end_setup(b);
@@ -1020,17 +1173,24 @@ static void execute(const Plan &p) {
 		}
 	}
 
-	for (auto &op : p.ops) { if (stop()) break; exec_op(op); }
+	for (auto &op : p.ops) { if (stop() || G.capped) break; exec_op(op); }
 
 	// liveness / completeness: with faults over and everything enabled, what was written must arrive
+	const bool keep = p.c("settle_keep") != 0;
+	auto got = [&](End &x) -> uint64_t { return x.rcvd + ((keep && x.bev && !x.freed && !x.eof_seen) ? evbuffer_get_length(bufferevent_get_input(x.bev)) : 0); };
 	if (!stop()) {
 		for (int i = 0; i < run.nend; i++) {
 			End &x = run.e[i];
 			if (!x.exists || x.freed || !x.bev) continue;
 			x.policy = 0;
 			x.free_in_cb = 0;
-			x.rlow = x.rhigh = x.wlow = x.whigh = 0;
-			bufferevent_setwatermark(x.bev, EV_READ, 0, 0);
+			for (auto u : x.under) { bufferevent_setwatermark(u, EV_READ, 0, 0); bufferevent_setwatermark(u, EV_WRITE, 0, 0); }
+			size_t inl0 = evbuffer_get_length(bufferevent_get_input(x.bev));
+			// variant: an application that keeps a high read watermark it is below of and simply waits for more input
+			bool keep_high = keep && x.rhigh && inl0 < x.rhigh && !x.cbs_cleared;
+			x.rlow = x.wlow = x.whigh = 0;
+			if (!keep_high) x.rhigh = 0;
+			bufferevent_setwatermark(x.bev, EV_READ, 0, x.rhigh);
 			bufferevent_setwatermark(x.bev, EV_WRITE, 0, 0);
 			bufferevent_set_timeouts(x.bev, nullptr, nullptr);
 			x.rt_us = x.wt_us = 0;
@@ -1045,20 +1205,21 @@ static void execute(const Plan &p) {
 		uint64_t last_tot = ~0ULL;
 		for (int k = 0; k < 20000 && !stop(); k++) {
 			uint64_t tot = 0;
-			for (int i = 0; i < run.nend; i++) tot += run.e[i].rcvd;
+			for (int i = 0; i < run.nend; i++) tot += got(run.e[i]);
 			if (k == 0 || (tot == last_tot && !vk::events_pending()))	// push filter leftovers (NEED_MORE) only when nothing else moves
-				for (int i = 0; i < run.nend; i++) { End &x = run.e[i]; if (x.exists && !x.freed && x.bev && !x.under.empty()) { R->in_flush++; if (!x.tx_closed) bufferevent_flush(x.bev, EV_WRITE, BEV_FLUSH); bufferevent_flush(x.bev, EV_READ, BEV_FLUSH); R->in_flush--; } }
+				for (int i = 0; i < run.nend; i++) { End &x = run.e[i]; if (x.exists && !x.freed && x.bev && !x.under.empty()) { R->in_flush++; if (!x.tx_closed) bufferevent_flush(x.bev, EV_WRITE, BEV_FLUSH); if (!x.eof_seen) bufferevent_flush(x.bev, EV_READ, BEV_FLUSH); R->in_flush--; } }
 			last_tot = tot;
-			for (int i = 0; i < run.nend; i++) { End &x = run.e[i]; if (x.exists && !x.freed && x.bev && !x.eof_seen) { size_t l = evbuffer_get_length(bufferevent_get_input(x.bev)); if (l) drain_and_verify(x, l); } if (x.ep) ep_push(x); }
+			for (int i = 0; i < run.nend; i++) { End &x = run.e[i]; if (!keep && x.exists && !x.freed && x.bev && !x.eof_seen) { size_t l = evbuffer_get_length(bufferevent_get_input(x.bev)); if (l) drain_and_verify(x, l); } if (x.ep) ep_push(x); }
 			bool moving = false;
 			for (int i = 0; i < run.nend; i++) {
 				End &x = run.e[i];
 				if (!x.exists || x.peer < 0) continue;
 				End &q = run.e[x.peer];
-				if (!x.freed && !q.freed && !x.eof_seen && !x.tx_reset && !q.tx_reset && x.rcvd < q.sent - (q.ep ? q.ep_pending.size() : 0)) moving = true;
+				if (!x.freed && !q.freed && !x.eof_seen && !x.tx_reset && !q.tx_reset && !(x.connecting && x.n_connected == 0 && p.c("connect_fail") == 3 && x.connect_attempts <= 1) && !(q.connecting && q.n_connected == 0 && p.c("connect_fail") == 3 && q.connect_attempts <= 1) && got(x) < q.sent - (q.ep ? q.ep_pending.size() : 0)) moving = true;
 			}
 			if (!moving) break;
 			if (k == 19999) G.capped = true;
+			if (G.capped) break;
 			if (p.prop == "C22") {
 				if (k == 4000) {	// slow limits: lift them so that the run ends; the ledger so far is still checked
 					ledger_epoch();
@@ -1078,11 +1239,23 @@ static void execute(const Plan &p) {
 			}
 		}
 		run.in_loop = false;
+		// what waited in an input buffer is verified now
+		for (int i = 0; i < run.nend && !stop(); i++) { End &x = run.e[i]; if (keep && x.exists && !x.freed && x.bev && !x.eof_seen) { size_t l = evbuffer_get_length(bufferevent_get_input(x.bev)); if (l) drain_and_verify(x, l); } }
+		// C19: a connection the network established long ago must have been announced
+		{ bool any = false; for (int i = 0; i < run.nend; i++) { End &x = run.e[i]; if (x.exists && !x.freed && x.bev && x.is_sock && x.connecting && x.n_connected == 0 && x.fd >= 0 && vk::sim_connected(x.fd)) any = true; }
+		  if (any && !stop() && !G.capped) { run.in_loop = true; for (int k = 0; k < 4; k++) event_base_loop(run.base, EVLOOP_NONBLOCK); run.in_loop = false; } }
+		for (int i = 0; i < run.nend && !stop(); i++) {
+			End &x = run.e[i];
+			if (!x.exists || x.freed || !x.bev || !x.is_sock || x.cbs_cleared || G.capped) continue;
+			if (x.connecting && x.n_connected == 0 && !x.n_err_r && !x.n_err_w && !x.n_timeout_w && !x.n_timeout_r && x.fd >= 0 && vk::sim_connected(x.fd))
+				V("C19", "C19.connected-not-reported", "end %d: the connection has been established and the loop is idle, but BEV_EVENT_CONNECTED was never delivered", x.id);
+		}
 		for (int i = 0; i < run.nend && !stop(); i++) {
 			End &x = run.e[i];
 			if (!x.exists || x.peer < 0) continue;
 			End &q = run.e[x.peer];
 			if (x.freed || q.freed || x.tx_reset || q.tx_reset || x.eof_seen) continue;
+			if ((x.connecting && x.n_connected == 0) || (q.connecting && q.n_connected == 0)) continue;	// never answered: no connection, no stream
 			uint64_t expect = q.sent - (q.ep ? q.ep_pending.size() : 0);
 			if (x.rcvd != expect && !G.capped)
 				V(p.prop == "C22" ? "C22" : "C17", p.prop == "C22" ? "C22.stalled" : "C17.bytes-lost", "after the faults stopped, with both ends enabled and no watermarks: end %d has %llu of the %llu bytes end %d wrote", x.id, (unsigned long long)x.rcvd, (unsigned long long)expect, q.id);
@@ -1157,7 +1330,10 @@ static void generate(Plan &p, Rng &r) {
 	if (prop == "C44") { p.cfg["listener"] = 1; p.cfg["lev_close_on_free"] = r.coin(); p.cfg["lev_disabled"] = r.chance(0.2); p.cfg["lev_threadsafe"] = r.chance(0.3); p.cfg["lev_no_cb"] = r.chance(0.1); p.cfg["lev_no_err_cb"] = r.chance(0.2); p.cfg["lev_cloexec"] = r.coin(); }
 	p.cfg["nconn"] = r.chance(0.7) ? 1 : r.range(2, 3);
 	p.cfg["defer"] = r.chance(0.4);
-	p.cfg["unlock"] = r.chance(0.3);
+	p.cfg["unlock"] = r.chance(prop == "C19" ? 0.5 : 0.3);
+	p.cfg["connect_fail"] = r.chance(prop == "C19" ? 0.5 : 0.15) ? r.range(1, 3) : 0;	// 1 refused after the connect latency, 2 refused at once, 3 never answered
+	p.cfg["settle_keep"] = r.chance(0.4);
+	p.cfg["connect_retry"] = r.chance(0.6);
 	p.cfg["threadsafe"] = r.chance(0.3);
 	p.cfg["nfilt"] = r.below(MAXFILT);
 	p.cfg["filtkinds"] = r.below(4096);
@@ -1175,8 +1351,9 @@ static void generate(Plan &p, Rng &r) {
 	std::vector<W> ws = {{OP_WRITE, 18}, {OP_POLICY, 5}, {OP_ENABLE, 5}, {OP_DISABLE, 4}, {OP_WATERMARK, 3}, {OP_TIMEOUTS, 0}, {OP_FLUSH, 3}, {OP_SETCB_NULL, 1},
 	    {OP_FREE, 1}, {OP_LOOP, 16}, {OP_ADVANCE, 3}, {OP_PEER_SEND, 8}, {OP_PEER_SHUTDOWN, 1}, {OP_PEER_RESET, 1}, {OP_PEER_PAUSE, 2}, {OP_SHUTDOWN_WR, 1}};
 	auto bump = [&](int code, int w) { for (auto &x : ws) if (x.code == code) x.w = w; };
-	if (prop == "C18") { bump(OP_WATERMARK, 12); bump(OP_POLICY, 10); }
-	if (prop == "C19") { bump(OP_FREE, 4); bump(OP_SETCB_NULL, 3); bump(OP_PEER_SHUTDOWN, 4); bump(OP_PEER_RESET, 3); bump(OP_FLUSH, 5); bump(OP_SHUTDOWN_WR, 4); }
+	if (prop == "C18") { bump(OP_WATERMARK, 12); bump(OP_POLICY, 10); bump(OP_ENABLE, 7); }
+	if (prop == "C17") { bump(OP_WATERMARK, 6); bump(OP_FLUSH, 5); }
+	if (prop == "C19") { bump(OP_POLICY, 9); bump(OP_FREE, 4); bump(OP_SETCB_NULL, 3); bump(OP_PEER_SHUTDOWN, 4); bump(OP_PEER_RESET, 3); bump(OP_FLUSH, 5); bump(OP_SHUTDOWN_WR, 4); }
 	if (prop == "C22") { ws.push_back({OP_RATELIMIT, 10}); ws.push_back({OP_GROUP, 8}); ws.push_back({OP_DECREMENT, 4}); ws.push_back({OP_MAXSINGLE, 4}); bump(OP_ADVANCE, 8); bump(OP_WRITE, 24); bump(OP_LOOP, 20); }
 	if (prop == "C44") { ws.push_back({OP_LISTENER, 14}); ws.push_back({OP_CLIENT_BURST, 12}); bump(OP_WRITE, 4); bump(OP_PEER_SEND, 2); }
 	if (prop == "C20") { bump(OP_TIMEOUTS, 10); bump(OP_ADVANCE, 8); bump(OP_WATERMARK, 5); bump(OP_PEER_PAUSE, 5); }
@@ -1185,7 +1362,23 @@ static void generate(Plan &p, Rng &r) {
 	int nops = thorough ? (int)r.range(10, 120) : (int)r.range(5, 50);
 	bool big = thorough && r.chance(0.15);
 	bool slow_filter = false;	// a one-byte-per-call or doubling filter somewhere in a stack: keep the payloads small
-	for (int f = 0; f < MAXFILT; f++) { int k = (int)((p.cfg["filtkinds"] >> (3 * f)) % 5); if (k == 2 || k == 3) slow_filter = true; }
+	for (int f = 0; f < MAXFILT; f++) { int k = (int)((p.cfg["filtkinds"] >> (3 * f)) % 6); if (k == 2 || k == 3 || k == 5) slow_filter = true; }
+	if ((prop == "C17" || prop == "C18") && r.chance(0.12)) {
+		// family "back-pressure then finish": a small write mark below the filter stack, a far end that is not taking
+		// data, more output than fits, and a finishing flush; the random ops follow
+		p.cfg["topo"] = r.chance(0.6) ? 4 : 3;
+		p.cfg["nconn"] = 1;
+		auto mk = [&](int code, std::initializer_list<int64_t> a) { Op o; o.code = code; int k = 0; for (auto v : a) o.a[k++] = v; p.ops.push_back(o); };
+		mk(OP_WATERMARK, {0, 0, 0, r.pick(std::vector<int64_t>{1, 7, 64, 1000}), r.range(1, 3), 0});
+		if (r.coin()) mk(OP_DISABLE, {1, 1}); else mk(OP_WATERMARK, {1, 1, 0, r.pick(std::vector<int64_t>{1, 10, 500}), 0, 0});
+		if (r.coin()) mk(OP_POLICY, {1, 2, 0});
+		mk(OP_WRITE, {0, r.range(100, 6000)});
+		if (r.coin()) mk(OP_LOOP, {(int64_t)r.below(5), 0, 1});
+		mk(OP_FLUSH, {0, 2, r.chance(0.7) ? 2 : 1});
+		if (r.coin()) mk(OP_LOOP, {(int64_t)r.below(5), 0, 1});
+		if (r.coin()) mk(OP_ENABLE, {1, 1});
+		probe("family.back-pressure-then-finish");
+	}
 	for (int i = 0; i < nops; i++) {
 		int x = (int)r.below(total), code = 0;
 		for (auto &w : ws) { if (x < w.w) { code = w.code; break; } x -= w.w; }
@@ -1196,7 +1389,10 @@ static void generate(Plan &p, Rng &r) {
 		case OP_WRITE: case OP_PEER_SEND: o.a[1] = gen_size(r, big); if (p.cfg["sockbuf"] <= 64 || p.cfg["seg_mode"] == 2 || slow_filter) o.a[1] %= 1500; break;
 		case OP_POLICY: o.a[1] = r.below(4); o.a[2] = r.below(64); break;
 		case OP_ENABLE: case OP_DISABLE: o.a[1] = r.range(1, 3); break;
-		case OP_WATERMARK: o.a[1] = r.below(2); o.a[2] = r.chance(0.5) ? 0 : gen_size(r, false) % 20000; o.a[3] = r.chance(0.3) ? 0 : gen_size(r, false) % 40000; break;
+		case OP_WATERMARK: o.a[1] = r.below(2); o.a[2] = r.chance(0.5) ? 0 : gen_size(r, false) % 20000; o.a[3] = r.chance(0.3) ? 0 : gen_size(r, false) % 40000;
+			o.a[4] = r.chance(0.35) ? r.range(1, 3) : 0; o.a[5] = r.chance(0.3) ? r.range(1, 4) + (r.coin() ? 8 : 0) : 0;
+			if (o.a[4] && r.chance(0.6)) { o.a[1] = 0; o.a[3] = r.pick(std::vector<int64_t>{1, 2, 7, 10, 64, 1000, 4096}); }	// small write marks below a filter
+			break;
 		case OP_TIMEOUTS: o.a[1] = r.chance(0.3) ? 0 : r.pick(std::vector<int64_t>{1000, 10000, 250000, 3000000}); o.a[2] = r.chance(0.3) ? 0 : r.pick(std::vector<int64_t>{1000, 10000, 250000, 3000000}); break;
 		case OP_FLUSH: o.a[1] = r.range(1, 3); o.a[2] = r.below(3); break;
 		case OP_LOOP: o.a[0] = r.below(30); o.a[1] = r.chance(0.5) ? 0 : r.pick(std::vector<int64_t>{100, 5000, 300000, 5000000}); o.a[2] = r.below(2); break;
